@@ -69,7 +69,7 @@ claimed["C01"] = ("contract-based deductive verification: combinator laws as cal
   "DESIGN.md §5 C01")
 
 claimed["C13"] = ("contract-based deductive verification: one-level postconditions and two-state monotone frame predicates (quantified over all document nodes) on the mutually recursive explode functions, as VCs from go/ssa discharged by z3/cvc5, each recursive call checked against and assumed to meet the same contract; the merge-key precedence of path traversal (ordered map from an external library) by a BOUNDED executed check",
-  "Proved for all inputs (one level per call, the tree by induction over the recursion): explodeNode leaves no anchor on its node; an alias with a target takes the target's kind, value, tag and style and stops being an alias, and for sequence targets receives as many elements, each without anchor or alias (defect found here and fixed: the copied content was not exploded); every element of an exploded sequence has no anchor and is no alias; scalars keep value, tag and style; across every call anchors are only ever removed, non-alias nodes keep kind/value/tag/style, sequences keep their content, nil aliases stay nil; overrideEntry explodes the value on every path that keeps it; a merge of a non-map is an error. BOUNDED (not proved): 4 executed enumerations (all subsets of 2 keys in anchor(s) and explicit entries, explicit keys before/after `<<`, merge lists of two; 3 read routes; 96+96+64+32 reads) compare traversal, explode and JSON output with the YAML merge rules; known findings F7a (explicit key before `<<` loses) and F7b (merge-list order differs between traversal and explode).",
+  "Proved for all inputs (one level per call, the tree by induction over the recursion): explodeNode leaves no anchor on its node; an alias with a target takes the target's kind, value, tag and style and stops being an alias, and for sequence targets receives as many elements, each without anchor or alias (defect found here and fixed: the copied content was not exploded); every element of an exploded sequence has no anchor and is no alias; scalars keep value, tag and style; across every call anchors are only ever removed, non-alias nodes keep kind/value/tag/style, sequences keep their content, nil aliases stay nil; overrideEntry explodes the value on every path that keeps it; a merge of a non-map is an error; while decoding, the most recent node carrying an anchor name is the one recorded for it and an alias points at the node recorded for its name (Go map modelled as value/presence arrays). BOUNDED (not proved): 4 executed enumerations (all subsets of 2 keys in anchor(s) and explicit entries, explicit keys before/after `<<`, merge lists of two; 3 read routes; 96+96+64+32 reads) compare traversal, explode and JSON output with the YAML merge rules; known findings F7a (explicit key before `<<` loses) and F7b (merge-list order differs between traversal and explode).",
   "Trusted/assumed: alias targets are not aliases, children are non-nil, maps have an even number of children (decoder invariants, assumed at entry); panic-freedom of the recursive walkers is not claimed (flag nosafety); append copies; the maps' content after reconstructAliasedMap (which keys survive, in which order) is only covered by the bounded checks; traversal (doTraverseMap/traverseMergeAnchor) is not under contract.",
   "DESIGN.md §5 C13")
 
@@ -82,12 +82,12 @@ claimed["C04"] = ("contract-based deductive verification: call-site assertions o
   "Mechanism only. Proved for all inputs: `x * y` on maps/sequences merges into a fresh copy of x (never x or y themselves) under a writable context; a null right operand gives a copy of x; mergeObjects performs exactly one assignment per node of the right operand's recursive descent, in that order, skipping `!!merge` keys, and returns the node it was given to fill; each assignment targets the left node alone, takes its value from that right node by reference, and uses the operator the flags select (`+` on sequences: append; sequences without `d`, scalars and aliases: plain assign; otherwise attribute assign), never in update mode; the comment-precedence table of getComments. NOT decided: the merged value itself (it is computed by re-entering the interpreter with the synthesised assignment; the path it addresses comes from createTraversalTree and the recursive descent, both assumed), the algebraic identities (a * {} = a, a * a = a), the `?`/`n` flags inside the assign operators, the multi-file reduce form, and that x and y read the same afterwards (the dispatcher's contract is too coarse for that under a writable context).",
   "Trusted: dispatcher contract, recursiveDecent (appends the nodes under its context in document order), createTraversalTree; functype contract of calculations.",
   "DESIGN.md §5 C04")
-claimed["C05"] = ("contract-based deductive verification: postconditions and loop invariants of the yaml.v3 <-> candidate node conversion as VCs from go/ssa (fields of the external yaml.Node struct modelled as heap), discharged by z3/cvc5; recursion by contract",
-  "Proved for all inputs, one level per call and the tree by induction over the recursion: converting a yaml.v3 node into a candidate node (UnmarshalYAML, decodeIntoChild, copyFromYamlNode) and back (MarshalYAML, copyToYamlNode) keeps, for every node, the style number, tag, value, anchor, head/line/foot comment, line and column, maps the kind one-to-one (alias, scalar, mapping, sequence), keeps the number and order of children, and refuses unknown kinds; MapYamlStyle/MapToYamlStyle are the identity on style numbers. Together: yaml.Node -> CandidateNode -> yaml.Node reproduces those attributes. NOT decided: yaml.v3's own parsing and emitting, the leading-content pre-processing of the decoder and its re-emission (bufio + regexp), document nodes and alias pointers (copyToYamlNode does not set Alias; the emitter prints the value), the printer's separators (see C10), byte-for-byte idempotence.",
+claimed["C05"] = ("contract-based deductive verification: postconditions and loop invariants of the yaml.v3 <-> candidate node conversion as VCs from go/ssa (fields of the external yaml.Node struct modelled as heap), discharged by z3/cvc5; recursion by contract; the decoder's leading-content pre-processing by a BOUNDED executed differential check against yaml.v3",
+  "Proved for all inputs, one level per call and the tree by induction over the recursion: converting a yaml.v3 node into a candidate node (UnmarshalYAML, decodeIntoChild, copyFromYamlNode) and back (MarshalYAML, copyToYamlNode) keeps, for every node, the style number, tag, value, anchor, head/line/foot comment, line and column, maps the kind one-to-one (alias, scalar, mapping, sequence), keeps the number and order of children, and refuses unknown kinds; MapYamlStyle/MapToYamlStyle are the identity on style numbers. Together: yaml.Node -> CandidateNode -> yaml.Node reproduces those attributes. BOUNDED (not proved): 9324 streams whose first line is a prefix of 1..4 characters over {a # space : - \"} with 3 continuations, alone or followed by a mapping line: whenever yaml.v3 accepts the stream, `yq .` accepts it and its output parses to the same data. NOT decided: yaml.v3's own parsing and emitting, the leading-content pre-processing beyond that bound and its re-emission, document nodes and alias pointers (copyToYamlNode does not set Alias; the emitter prints the value), the printer's separators (see C10), byte-for-byte idempotence.",
   "Trusted: children of yaml nodes are non-nil and mappings have an even number of children (library invariant, assumed at entry); append/make copy semantics.",
   "DESIGN.md §5 C05")
 claimed["C06"] = ("contract-based deductive verification: postconditions of the scalar conversion tables as VCs from go/ssa, discharged by z3/cvc5",
-  "Scalar tables only. Proved for all inputs: GetValueRep (what the JSON encoder is handed for a scalar) yields the exact int64 for `!!int` text (decimal, hex, octal; an error iff the text is not an int64), nil for `!!null`, the truthiness for `!!bool`, and the text verbatim for every other core tag; setScalarFromJson maps JSON null to a `!!null` scalar and a JSON string to a `!!str` scalar with the same text (the float32 branch would panic and is excluded by precondition: the JSON library yields float64 only). NOT decided: everything textual — string escaping, number lexing and printing, key order and object syntax of MarshalJSON/UnmarshalJSON (goccy/go-json, bytes.Buffer), floats (modelled as reals here), and integers beyond 2^53 on the way in (they pass through float64 in the library: F12, seen by reading, not decided by a check).",
+  "Scalar tables only. Proved for all inputs: GetValueRep (what the JSON encoder is handed for a scalar) yields the exact int64 for `!!int` text (decimal, hex, octal; an error iff the text is not an int64), nil for `!!null`, the truthiness for `!!bool`, and the text verbatim for every other core tag; setScalarFromJson maps JSON null to a `!!null` scalar and a JSON string to a `!!str` scalar with the same text, and a JSON number to `!!int` only with the decimal text of an integer whose float64 image is that number, otherwise to `!!float` (the float32 branch would panic and is excluded by precondition: the JSON library yields float64 only). NOT decided: everything textual — string escaping, number lexing and printing, key order and object syntax of MarshalJSON/UnmarshalJSON (goccy/go-json, bytes.Buffer), floats (modelled as reals here), and integers beyond 2^53 on the way in (they pass through float64 in the library: F12, seen by reading, not decided by a check).",
   "Trusted: strconv model, guessTagFromCustomType contract for custom tags.",
   "DESIGN.md §5 C06")
 
